@@ -222,7 +222,7 @@ def run_property(modname, tier="quick", only=None, max_shards=None, verbose=Fals
                 a["paths_data"].append(p)
             if verbose:
                 print(f"  shard {sname}#{idx} paths={res.stats.get('paths')} viol={len(res.violations)} "
-                      f"{'INCONCLUSIVE ' + res.inconclusive if res.inconclusive else ''} {dt:.1f}s", flush=True)
+                      f"{'INCONCLUSIVE ' + res.inconclusive if res.inconclusive else ''} {dt:.1f}s pins={json.dumps(pins)[:400]}", flush=True)
     explore_s = time.time() - t0
 
     for s in specs:
@@ -273,9 +273,14 @@ def run_property(modname, tier="quick", only=None, max_shards=None, verbose=Fals
             groups.setdefault(_sig(v), []).append(v)
     rjobs = []
     per_group = int(os.environ.get("VERIF_REPLAY_PER_GROUP", "60"))
+    variants = getattr(mod, "replay_variants", None)
     for sig, vs in groups.items():
-        for v in vs[:per_group]:
+        for n_v, v in enumerate(vs[:per_group]):
             rjobs.append(v)
+            if variants is not None and n_v < 8:
+                # e.g. a counterexample found in a shrunk port universe is transported to the real universe
+                for alt in variants(v):
+                    rjobs.append(dict(v, values=alt, transported=True))
     routs = concrete_batch(modname, tier, [dict(spec=j["spec"], choices=j["choices"], values=j["values"]) for j in rjobs], seed=seed)
     confirmed_by_group, errors_by_group = {}, {}
     for v, o in zip(rjobs, routs):
@@ -283,7 +288,7 @@ def run_property(modname, tier="quick", only=None, max_shards=None, verbose=Fals
         if "error" in o:
             errors_by_group.setdefault(sig, []).append(o["error"])
             continue
-        if o["violated"] and o.get("assumed_ok", True):
+        if o["violated"] and o.get("assumed_ok", True) and (not v.get("transported") or v["label"] in o["violated"]):
             v["concrete"] = o
             confirmed_by_group.setdefault(sig, []).append(v)
     new_violations, known_hits, unconfirmed = [], {}, []
@@ -375,11 +380,11 @@ def run_property(modname, tier="quick", only=None, max_shards=None, verbose=Fals
           f"claims={sum(a['claims'] for a in agg.values())} solver_queries={stats_tot['fork_checks'] + stats_tot['verdict_checks']} "
           f"solver_s={stats_tot['solver_s']:.1f} validated={agree}/{len(vjobs)} counterexample_groups={len(groups)} "
           f"known={len(known_hits)} new={len(new_violations)} wall={wall:.1f}s")
+    for p in problems[:30]:
+        print("INCONCLUSIVE:", p[:2000])
     if new_violations:
         return EXIT_VIOLATION
     if problems:
-        for p in problems[:30]:
-            print("INCONCLUSIVE:", p[:2000])
         return EXIT_INCONCLUSIVE
     return EXIT_OK
 
